@@ -173,7 +173,9 @@ def expected_scenarios(case, tables, schema):
         if t is None:
             continue
         for ri, (cells, line) in enumerate(t["rows"], 1):
-            row = dict(zip(t["head"], cells))
+            row = {}
+            for h, c in zip(t["head"], cells):
+                row.setdefault(h, c)        # a repeated heading: row[name] is the first such cell
             params = {"examples.index": str(ei), "row.index": str(ri), "row.id": "%d.%d" % (ei, ri)}
             full = dict(params)
             full.update(row)
@@ -408,6 +410,9 @@ def gen_case(rnd, allow_chained=False):
         rnd.shuffle(head)
         if rnd.random() < 0.2:
             head.append("extra")
+        if rnd.random() < 0.15:
+            # a heading written twice: the row's cell for that column is the one the Row API gives (row[name]: the first)
+            head.insert(rnd.randint(0, len(head)), rnd.choice(head))
         pool = VALUES + (CHAINED if allow_chained else [])
         rows = [[rnd.choice(pool) for _ in head] for _ in range(rnd.choice([0, 1, 2, 2, 3]))]
         examples.append({"name": rnd.choice(["", "E", "for <%s>" % cols[0], "block <examples.index>", "Ünï"]),
